@@ -15,14 +15,16 @@
 //
 // line protocol
 //   sched <seed> <rw|rr> [<delay-offset> <delay-len>]
-//   setup <g|pull|push|dial>        provider kind (default g = generic provider)
+//   setup <g|pull|push|dial> [n]    provider kind (default g = generic provider); push n = NNG_OPT_SENDBUF n
 //   cb <k> <op>                     the callback re-submits (op: sub|slp:<ms>|rcv|snd) up to k times
 //   A <name> <op> <op> ...          one actor program (names: one letter)
 //   run                             -> trace line
 //   reset                           -> "reset"
 // actor ops: to:<ms|inf|def|0> ex:<ms> sub subi:<rv> skip slp:<ms> cmp:<rv> abt:<rv> can cls stp wt
 //            bsy fre adv:<ms> jn:<actor> y rcv snd mrecv mrecverr:<rv> msend:<rv> sclose dial
-//            mconn:<err>
+//            mconn:<err> nbsnd (nng_sendmsg NONBLOCK: fills pipe/buffer) xrcv:<i> xsnd:<i> (auxiliary aios
+//            i=0,1: more waiters on the provider's list; only their exactly-once is checked, by the harness:
+//            events "auxdup i" / "auxmiss i")
 // events: "<actor> c <op..>" call, "<actor> r <op> [val]" return, "<actor> xc <rv> <found>" cancel
 //   function ran, "<actor> pc <rv> <found>" provider completion test-and-remove, "T cb <result>"
 //   callback entered, "T ce <result>" callback about to resubmit/return, "<actor> adv <ms>";
@@ -80,6 +82,10 @@ static int      resub_budget;
 static char     resub_op[32] = "sub";
 static bool     skipflag, skip_armed;
 static char     kind[8]      = "g";
+static int      kind_arg;
+#define NAUX 2
+static nng_aio *aux[NAUX];
+static int      aux_sub[NAUX], aux_cb[NAUX];
 static long long t0;
 static int      nsubmit;
 
@@ -151,6 +157,27 @@ submit_generic(void)
 	}
 	evt("r sub %d", (int) ok);
 	nng_mtx_unlock(pmtx);
+}
+
+static void
+aux_cbfn(void *arg)
+{
+	int      i = (int) (intptr_t) arg;
+	int      rv;
+	nng_msg *m;
+	me = "X";
+	rv = (int) nng_aio_result(aux[i]);
+	m  = nng_aio_get_msg(aux[i]);
+	aux_cb[i]++;
+	evt("xcb %d %d", i, rv);
+	if (aux_cb[i] > aux_sub[i]) {
+		evt("auxdup %d", i);
+	}
+	if (m != NULL && ((rv == 0 && strcmp(kind, "pull") == 0) || (rv != 0 && strcmp(kind, "push") == 0))) {
+		nng_msg_free(m);
+		nng_aio_set_msg(aux[i], NULL);
+	}
+	me = NULL;
 }
 
 static void
@@ -261,6 +288,37 @@ do_op(char *op)
 		}
 		nng_mtx_unlock(cmtx);
 		evt("r %s %d", name, rv);
+		return;
+	}
+	if (OP("nbsnd")) {
+		nng_msg *m;
+		int      rv;
+		evt("c nbsnd");
+		nng_msg_alloc(&m, 2);
+		if ((rv = nng_sendmsg(sock, m, NNG_FLAG_NONBLOCK)) != 0) {
+			nng_msg_free(m);
+		}
+		evt("r nbsnd %d", rv);
+		return;
+	}
+	if (OP("xrcv") || OP("xsnd")) {
+		int i = atoi(arg) % NAUX;
+		if (aux[i] == NULL || aux_sub[i] != aux_cb[i]) {
+			evt("skip %s", name); // still busy: one operation at a time per aio
+			return;
+		}
+		aux_sub[i]++;
+		evt("c %s %d", name, i);
+		nng_aio_set_timeout(aux[i], NNG_DURATION_INFINITE);
+		if (OP("xrcv")) {
+			nng_socket_recv(sock, aux[i]);
+		} else {
+			nng_msg *m;
+			nng_msg_alloc(&m, 2);
+			nng_aio_set_msg(aux[i], m);
+			nng_socket_send(sock, aux[i]);
+		}
+		evt("r %s %d", name, i);
 		return;
 	}
 	if (OP("sclose")) {
@@ -397,6 +455,10 @@ run_case(uint64_t seed, int policy, int doff, int dlen)
 	nng_mtx_alloc(&cmtx);
 	pipe_dead = false;
 	nng_aio_alloc(&aio, the_cb, NULL);
+	for (int i = 0; i < NAUX; i++) {
+		nng_aio_alloc(&aux[i], aux_cbfn, (void *) (intptr_t) i);
+		aux_sub[i] = aux_cb[i] = 0;
+	}
 	aio_live = true;
 	freeing  = false;
 	parked   = false;
@@ -410,6 +472,9 @@ run_case(uint64_t seed, int policy, int doff, int dlen)
 			nng_push0_open(&sock);
 		}
 		sock_open = true;
+		if (kind[2] == 's' && kind_arg > 0) {
+			nng_socket_set_int(sock, NNG_OPT_SENDBUF, kind_arg);
+		}
 		nng_listen(sock, "gopher://sut", NULL, 0);
 		sim_quiesce();
 		pipe0 = mock_conn_done(0, kind[2] == 'l' ? 0x50 : 0x51, 0);
@@ -480,6 +545,16 @@ run_case(uint64_t seed, int policy, int doff, int dlen)
 		evt("r fre");
 	}
 	sim_quiesce();
+	for (int i = 0; i < NAUX; i++) {
+		nng_aio_stop(aux[i]);
+		sim_quiesce();
+		if (aux_cb[i] != aux_sub[i]) {
+			evt(aux_cb[i] > aux_sub[i] ? "auxdup %d" : "auxmiss %d", i);
+		}
+		nng_aio_free(aux[i]);
+		aux[i] = NULL;
+	}
+	sim_quiesce();
 	set_policy(0);
 	for (int i = 0; i < nA; i++) {
 		nng_thread_destroy(A[i].thr);
@@ -518,6 +593,7 @@ main(void)
 			printf("ok\n");
 		} else if (strcmp(op, "setup") == 0 && vn >= 2) {
 			snprintf(kind, sizeof(kind), "%s", vw[1]);
+			kind_arg = vn >= 3 ? atoi(vw[2]) : 0;
 			printf("ok\n");
 		} else if (strcmp(op, "cb") == 0 && vn >= 3) {
 			resub_budget = atoi(vw[1]);
@@ -528,7 +604,9 @@ main(void)
 			snprintf(a->name, sizeof(a->name), "%s", vw[1]);
 			a->nops = 0;
 			for (int i = 2; i < vn && a->nops < MAXOPS; i++) {
-				a->ops[a->nops++] = strdup(vw[i]);
+				a->ops[a->nops] = strdup(vw[i]);
+				a->ops[a->nops][strcspn(a->ops[a->nops], "\r\n")] = 0;
+				a->nops++;
 			}
 			printf("ok\n");
 		} else if (strcmp(op, "run") == 0) {
@@ -543,6 +621,7 @@ main(void)
 			resub_budget = 0;
 			snprintf(resub_op, sizeof(resub_op), "sub");
 			snprintf(kind, sizeof(kind), "g");
+			kind_arg = 0;
 			seed = 1;
 			policy = doff = dlen = 0;
 			printf("reset\n");
